@@ -59,6 +59,7 @@ def parseEv (j : Json) : R TEv := do
       | "more", [c, n] => do return Ev.more (← c.getNat?) (← n.getNat?)
       | "isend", [c, conn, n, d] => do return Ev.isend (← c.getNat?) (← conn.getNat?) (← n.getNat?) (← getBytes d)
       | "busy", [c] => do return Ev.busy (← c.getNat?)
+      | "drop", [c] => do return Ev.drop (← c.getNat?)
       | "idend", [c, ok] => do return Ev.idend (← c.getNat?) (← ok.getBool?)
       | _, _ => throw s!"bad event {j.compress}")
     return ⟨t, ev⟩
